@@ -4,7 +4,7 @@
 // comments only: with or without the build tag it adds no code to the package.
 package document
 
-//@ spec rowsOwn(t *Table) bool = forall r1 int, r2 int :: 0 <= r1 && r1 < r2 && r2 < len(t.Rows) ==> arr(t.Rows[r1].Cells) != arr(t.Rows[r2].Cells)
+//@ spec rowsOwn(t *Table) bool = (forall r0 int :: 0 <= r0 && r0 < len(t.Rows) ==> arr(t.Rows[r0].Cells) < allocBound()) && (forall r1 int, r2 int :: 0 <= r1 && r1 < r2 && r2 < len(t.Rows) ==> arr(t.Rows[r1].Cells) != arr(t.Rows[r2].Cells))
 
 //@ spec cellPropsOwn(t *Table) bool = forall r1 int, c1 int, r2 int, c2 int :: 0 <= r1 && r1 < len(t.Rows) && 0 <= c1 && c1 < len(t.Rows[r1].Cells) && 0 <= r2 && r2 < len(t.Rows) && 0 <= c2 && c2 < len(t.Rows[r2].Cells) && (r1 != r2 || c1 != c2) && t.Rows[r1].Cells[c1].Properties != nil ==> t.Rows[r1].Cells[c1].Properties != t.Rows[r2].Cells[c2].Properties
 
@@ -75,6 +75,7 @@ package document
 
 //@ func (*Table).InsertColumn
 //@ props C09
+//@ wf TableCell.Paragraphs, Paragraph.Runs, TableRow.Cells
 //@ requires t != nil && rowsOwn(t)
 //@ ensures err != nil ==> unchangedHeap()
 //@ ensures err == nil ==> t.Grid != nil && len(t.Grid.Cols) == old(ite(t.Grid == nil, 0, len(t.Grid.Cols))) + 1
@@ -164,6 +165,7 @@ package document
 
 //@ func (*Table).MergeCellsVertical
 //@ props C09
+//@ wf TableCell.Properties
 //@ requires t != nil && rowsOwn(t) && cellPropsOwn(t)
 //@ ensures err != nil ==> unchangedHeap()
 //@ ensures err == nil ==> 0 <= startRow && startRow < endRow && endRow < len(t.Rows) && 0 <= col
